@@ -16,11 +16,12 @@ import (
 	"time"
 
 	"github.com/irai/packet"
+	"github.com/irai/packet/fastlog"
 	arp "github.com/irai/packet/handlers/arp_spoofer"
 	dhcp "github.com/irai/packet/handlers/dhcp4_spoofer"
 	dns "github.com/irai/packet/handlers/dns_naming"
-	"golang.org/x/net/dns/dnsmessage"
 	icmp "github.com/irai/packet/handlers/icmp_spoofer"
+	"golang.org/x/net/dns/dnsmessage"
 	"verif/harness/c10"
 	"verif/harness/core"
 	"verif/harness/sess"
@@ -186,6 +187,16 @@ func EvalAll(c *core.Ctx, line string) []*core.Case {
 	f := strings.Fields(line)
 	if len(f) < 4 || f[0] != "call" {
 		return nil
+	}
+	// the send paths run with the library's loggers at debug level for lines of even length and at the default level
+	// for the others (a function of the line: a replay reproduces it).  A frame must not depend on the log level; at
+	// debug level the statements inside `if Logger.IsDebug() { … }` run as well.
+	lvl := fastlog.LevelInfo
+	if len(line)%2 == 0 {
+		lvl = fastlog.LevelDebug
+	}
+	for _, l := range []*fastlog.Logger{packet.Logger, arp.Logger, dhcp.Logger, dns.Logger, icmp.Logger4, icmp.Logger6} {
+		l.SetLevel(lvl)
 	}
 	n, err := strconv.Atoi(f[1])
 	pb := core.UnHex(f[2])
